@@ -58,6 +58,8 @@ type Contract struct {
 	File      string
 	Line      int
 	GenName   string // generated function name
+	Disabled  string // reason the contract could not be bound to the current source
+	EndLine   int
 	Olds      []string
 }
 
@@ -66,12 +68,13 @@ type Param struct{ Name, Type string }
 var clauseKeywords = map[string]bool{"func": true, "spec": true, "lemma": true, "requires": true, "ensures": true, "modifies": true,
 	"pure": true, "inline": true, "assumed": true, "fp": true, "loop": true, "ghost": true, "property": true, "opaque": true,
 	"noframe": true, "trusted": true, "deterministic": true, "maxinline": true, "allowpanic": true, "import": true, "intsmath": true, "nocanary": true,
-	"havocglobals": true, "readsheap": true, "timeout": true, "thorough": true, "terminates": true}
+	"havocglobals": true, "readsheap": true, "alloclimit": true, "stream": true, "timeout": true, "thorough": true, "terminates": true}
 
 type ContractSet struct {
 	ByPkg   map[string][]*Contract // pkg dir -> contracts in file order
 	Imports map[string][]string
 	Source  string // "repo" or "mirror"
+	AllocLimits map[string]uint64 // element type -> largest make() length allowed
 }
 
 func findContractFiles(repo, mirror string) (map[string][]string, string) {
@@ -79,19 +82,21 @@ func findContractFiles(repo, mirror string) (map[string][]string, string) {
 	src := "repo"
 	for _, d := range []string{"r1", "r2", "r3", "s1", "s2", "s2/s2intersect"} {
 		m, _ := filepath.Glob(filepath.Join(repo, d, "vc_*_verif.go"))
-		sort.Strings(m)
+		have := map[string]bool{}
+		for _, f := range m {
+			have[filepath.Base(f)] = true
+		}
+		// contract files present only in the mirror (a tree restored without the hook commits) are added
+		mm, _ := filepath.Glob(filepath.Join(mirror, d, "vc_*_verif.go"))
+		for _, f := range mm {
+			if !have[filepath.Base(f)] {
+				m = append(m, f)
+				src = "repo+mirror"
+			}
+		}
+		sort.Slice(m, func(i, j int) bool { return filepath.Base(m[i]) < filepath.Base(m[j]) })
 		if len(m) > 0 {
 			res[d] = m
-		}
-	}
-	if len(res) == 0 {
-		src = "mirror"
-		for _, d := range []string{"r1", "r2", "r3", "s1", "s2", "s2/s2intersect"} {
-			m, _ := filepath.Glob(filepath.Join(mirror, d, "vc_*_verif.go"))
-			sort.Strings(m)
-			if len(m) > 0 {
-				res[d] = m
-			}
 		}
 	}
 	return res, src
@@ -99,7 +104,7 @@ func findContractFiles(repo, mirror string) (map[string][]string, string) {
 
 func parseContracts(repo, mirror string) (*ContractSet, error) {
 	files, src := findContractFiles(repo, mirror)
-	cs := &ContractSet{ByPkg: map[string][]*Contract{}, Imports: map[string][]string{}, Source: src}
+	cs := &ContractSet{ByPkg: map[string][]*Contract{}, Imports: map[string][]string{}, Source: src, AllocLimits: map[string]uint64{}}
 	for dir, fl := range files {
 		for _, f := range fl {
 			if err := cs.parseFile(dir, f); err != nil {
@@ -153,13 +158,19 @@ func (cs *ContractSet) parseFile(dir, file string) error {
 			return fmt.Errorf("%s:%d: stray contract text", file, i+1)
 		}
 	}
+	lastLine := 0
 	finish := func() {
 		if cur != nil {
+			cur.EndLine = lastLine
 			cs.ByPkg[dir] = append(cs.ByPkg[dir], cur)
 		}
 		cur = nil
 	}
 	for _, it := range items {
+		if it.kw == "func" || it.kw == "lemma" || it.kw == "spec" || it.kw == "property" {
+			finish()
+		}
+		lastLine = it.line
 		mk := func(kind string) *Contract {
 			return &Contract{Kind: kind, Pkg: pkg, Dir: dir, Loops: map[int]*LoopSpec{}, Flags: map[string]string{}, Props: append([]string{}, props...), File: file, Line: it.line}
 		}
@@ -169,6 +180,16 @@ func (cs *ContractSet) parseFile(dir, file string) error {
 			props = strings.Fields(it.text)
 		case "import":
 			cs.Imports[dir] = append(cs.Imports[dir], strings.TrimSpace(it.text))
+		case "alloclimit":
+			f := strings.Fields(it.text)
+			if len(f) != 2 {
+				return fmt.Errorf("%s:%d: alloclimit wants '<elem type> <count>'", file, it.line)
+			}
+			n, err := strconv.ParseUint(f[1], 10, 64)
+			if err != nil {
+				return fmt.Errorf("%s:%d: bad alloclimit count", file, it.line)
+			}
+			cs.AllocLimits[f[0]] = n
 		case "func":
 			finish()
 			cur = mk("func")
@@ -665,6 +686,9 @@ func vcModElems[T any](s []T) {}
 func vcModObj[T any](p *T) {}
 func vcLen[T any](s []T) int { return len(s) }
 func vcSame[T any](a, b T) bool { return true }
+func vcOldGet[T any](k int, witness T) T { return witness }
+func vcOldBind[T any](k int, x T) {}
+func vcErrorRaised() bool { return false }
 `
 
 // generate returns the synthetic Go file for one package directory.
@@ -674,31 +698,40 @@ func (cs *ContractSet) generate(dir string) (string, error) {
 		return "", nil
 	}
 	var b strings.Builder
-	fmt.Fprintf(&b, "package %s\n\n", cl[0].Pkg)
-	imps := map[string]bool{}
-	for _, im := range cs.Imports[dir] {
-		imps[im] = true
-	}
-	if len(imps) > 0 {
-		b.WriteString("import (\n")
-		var l []string
-		for im := range imps {
-			l = append(l, im)
-		}
-		sort.Strings(l)
-		for _, im := range l {
-			fmt.Fprintf(&b, "\t%s\n", im)
-		}
-		b.WriteString(")\n")
-		// keep imports used
-	}
 	b.WriteString(specPrelude)
 	for idx, c := range cl {
 		if err := c.gen(&b, idx); err != nil {
 			return "", fmt.Errorf("%s:%d: %v", c.File, c.Line, err)
 		}
 	}
-	return b.String(), nil
+	body := b.String()
+	var hdr strings.Builder
+	fmt.Fprintf(&hdr, "package %s\n\n", cl[0].Pkg)
+	imps := map[string]bool{}
+	for _, im := range cs.Imports[dir] {
+		imps[im] = true
+	}
+	var l []string
+	for im := range imps {
+		// keep only imports whose package name is used in the generated text
+		path := strings.Trim(im, "\"")
+		name := path[strings.LastIndex(path, "/")+1:]
+		if f := strings.Fields(im); len(f) == 2 {
+			name = f[0]
+		}
+		if strings.Contains(body, name+".") {
+			l = append(l, im)
+		}
+	}
+	sort.Strings(l)
+	if len(l) > 0 {
+		hdr.WriteString("import (\n")
+		for _, im := range l {
+			fmt.Fprintf(&hdr, "\t%s\n", im)
+		}
+		hdr.WriteString(")\n")
+	}
+	return hdr.String() + body, nil
 }
 
 func paramList(ps []Param) string {
@@ -720,6 +753,9 @@ func lineDirective(b *strings.Builder, cl Clause) {
 func (c *Contract) gen(b *strings.Builder, idx int) error {
 	base := fmt.Sprintf("vc_%d_%s", idx, genIdent(c.Name))
 	c.GenName = base
+	if c.Disabled != "" {
+		return nil
+	}
 	switch c.Kind {
 	case "spec":
 		body, err := rewriteSpec(c.SpecBody, nil)
@@ -783,6 +819,7 @@ func (c *Contract) gen(b *strings.Builder, idx int) error {
 				fname = c.Name[strings.LastIndex(c.Name, ").")+2:]
 			}
 			call += fname + "(" + strings.Join(args, ", ") + ")"
+			fmt.Fprintf(b, "//line %s:%d\n", c.File, c.Line)
 			if len(c.Results) > 0 {
 				var rn []string
 				for _, r := range c.Results {
@@ -842,28 +879,43 @@ func (c *Contract) gen(b *strings.Builder, idx int) error {
 				}
 			}
 			ps = append(ps, lv...)
-			fmt.Fprintf(b, "func %s_loop%d(%s) {\n", base, n, paramList(ps))
+			var lolds []string
+			var lbody strings.Builder
 			for i, inv := range ls.Invs {
-				e, err := rewriteSpec(inv.Expr, nil)
+				e, err := rewriteSpec(inv.Expr, &lolds)
 				if err != nil {
 					return err
 				}
+				e = strings.ReplaceAll(e, "vcOld", "vcLOld")
 				lab := inv.Label
 				if lab == "" {
 					lab = fmt.Sprintf("%d", i+1)
 				}
-				lineDirective(b, inv)
-				fmt.Fprintf(b, "\tvcInvariant(%s, %q)\n", e, lab)
+				lineDirective(&lbody, inv)
+				fmt.Fprintf(&lbody, "\tvcInvariant(%s, %q)\n", e, lab)
 			}
 			if ls.Decr != nil {
 				e, err := rewriteSpec(ls.Decr.Expr, nil)
 				if err != nil {
 					return err
 				}
-				lineDirective(b, *ls.Decr)
-				fmt.Fprintf(b, "\tvcDecreases(int(%s))\n", e)
+				lineDirective(&lbody, *ls.Decr)
+				fmt.Fprintf(&lbody, "\tvcDecreases(int(%s))\n", e)
 			}
+			fmt.Fprintf(b, "func %s_loop%d(%s) {\n", base, n, paramList(ps))
+			for k, o := range lolds {
+				fmt.Fprintf(b, "\tvcLOld%d := vcOldGet(%d, %s)\n\t_ = vcLOld%d\n", k, k, o, k)
+			}
+			b.WriteString(lbody.String())
 			b.WriteString("}\n\n")
+			if len(lolds) > 0 {
+				// old-expressions of the invariants, evaluated in the function's entry state (parameters only)
+				fmt.Fprintf(b, "func %s_loop%d_olds(%s) {\n", base, n, paramList(all))
+				for k, o := range lolds {
+					fmt.Fprintf(b, "\tvcOldBind(%d, %s)\n", k, o)
+				}
+				b.WriteString("}\n\n")
+			}
 		}
 	}
 	return nil
